@@ -221,7 +221,18 @@ def run(ctx):
                               {"config": [s, l, "400", "300", "50"], "args": args, "failures": fails[:10], "note": "repeat the command: the outcome varies from run to run"})
                 concrete += 1
                 break
-    ctx.log("%d generations of frames with more than 500 nodes checked against the documentation" % big_runs)
+    # many divisions with lengths that are not dyadic: positions must be index x length, not a running sum
+    for (s, l, span, height, load) in ([(10, 2, "365.76", "3.3", "50"), (15, 7, "0.1", "3.3", "-12.5"), (12, 6, "12345.678", "0.7", "12345.678")]
+                                       + ([] if ctx.tier == "quick" else [(28, 3, "365.76", "0.1", "7"), (20, 11, "0.7", "3.3", "1e-3"), (33, 9, "1.1", "2.2", "99999.99")])):
+        args = ["generate", "--type", "retic", "--spans", str(s), "--levels", str(l), "--span", span, "--level", height, "--load", load]
+        r = cli.run(ctx, args, name="c19")
+        big_runs += 1
+        fails = ["exit status %s" % r.status] if r.status != 0 else documented(s, l, Fr(span), Fr(height), Fr(load), parse_generated(ctx, r.stdout))
+        if fails:
+            ctx.violation("generate --spans %d --levels %d --span %s --level %s --load %s: %s" % (s, l, span, height, load, "; ".join(fails[:3])),
+                          {"config": [s, l, span, height, load], "args": args, "failures": fails[:10]})
+            concrete += 1
+    ctx.log("%d generations of large or finely divided frames checked against the documentation" % big_runs)
     for k in sorted(known)[:4]:
         ctx.known.append(k)
     validated = 0
